@@ -299,6 +299,13 @@ func runC07(c *rt.Ctx) {
 
 	c.Parallel("fromtime", 0, func(w *rt.W) {
 		for i := w.Shard; i < len(B); i += w.NShards {
+			// local mean time style offsets (not a multiple of 60 s), instants within a minute of local midnight
+			for _, off := range []int{19*60 + 32, -(44*60 + 30), 5*3600 + 53*60 + 28, -(4*3600 + 56*60 + 2), 59, -59, 1, -1, 3600 + 1, 13*3600 + 59*60 + 59} {
+				for _, ds := range []int64{-61, -60, -59, -31, -1, 0, 1, 10, 31, 59, 60, 61} {
+					c07FromTime(w, B[i]*86400-int64(off)+ds, off)
+				}
+				w.ClassN("fromtime-offset-with-seconds", 12)
+			}
 			for off := -12 * 3600; off <= 14*3600; off += 1800 {
 				for _, ds := range []int64{-1, 0, 1, 43200} {
 					// around UTC midnight
@@ -360,6 +367,7 @@ func runC07(c *rt.Ctx) {
 	}
 	c.Require("local-zone-sweep", int64(len(hostileZones())))
 	c.Require("fromtime-non-utc-zone-near-midnight", 100000)
+	c.Require("fromtime-offset-with-seconds", 100000)
 	c.Require("adjacent-pair-crossing-month", 119000)
 	c.Require("boundary-pair-rows", 1)
 }
